@@ -53,6 +53,7 @@ def run(prog, chk):
     send_reports_accepted_bytes(prog, chk, "C13.j")
     client_write_table(prog, chk, "C13.l")
     from . import c14 as _c14
+    backlog_creation_registers_write(prog, chk, "C13.o")
     _c14.event_translation_tables(prog, chk, "C13.n")     # level-triggered registration: a write event that lost against a read is reported again
     c08.window_trims(prog, chk, "C13.m")      # the drain arm removes what the socket took with removeFront(sent)
     # the send backlog is a Buffer that is freed whenever it has drained and grown again by the next partial send: the pairing of
@@ -335,7 +336,13 @@ def run(prog, chk):
         s = type(s)(*[rhs_ if fld_ == "rhs" else getattr(s, fld_) for fld_ in s._fields]) if hasattr(s, "_fields") else s
         t = q.no_casts(w.r(s.rhs))
         after_app = w.find_path(w.entry_pos(), {w.node_pos(s.node)}, avoid=q.pos_of(w, apps_all), after_src=False) is None
-        if (after_app and t == "this->_sendBuffer.size()") or (not after_app and fin.eval_expr(w, s.rhs, {}) == 0):
+        # with the buffer known empty before `append(data, size)` the backlog size IS `size`
+        at_ = fin.dominating_atoms(w, w.node_pos(s.node)) if w.node_pos(s.node) is not None else []
+        fresh_whole = after_app and t == w.params[1]["n"] and \
+            any(x[0] != "case" and x[1] and fin.key(w, x[0]) == "this->_sendBuffer.isEmpty()" for x in at_) and \
+            all([q.no_casts(w.r(x)) for x in q.call_args(w, a)] == [w.params[0]["n"], w.params[1]["n"]]
+                for a in apps_all if w.node_pos(a) is not None and q.reaches(w, a, s.node))
+        if (after_app and (t == "this->_sendBuffer.size()" or fresh_whole)) or (not after_app and fin.eval_expr(w, s.rhs, {}) == 0):
             chk.ok("C13.f", w, "*postponed = %s" % t, w.where(s.node), "buffered path" if after_app else "nothing buffered", evals=2)
         else:
             chk.bad("C13.f", w, "postponed-value", w.where(s.node), "*postponed must be the backlog size after buffering and 0 when nothing was buffered; this store writes `%s`" % t)
@@ -462,3 +469,33 @@ def client_write_table(prog, chk, rid):
                 "ClientImpl::write with %s: %s - bytes the peer never receives (or receives twice) although write() reported success" % bad, evals=len(scen))
     else:
         chk.ok(rid, f, "write queues exactly the unsent tail for %d outcomes of the direct send" % len(scen), where, "evaluation of the function body per outcome", evals=len(scen))
+
+
+def backlog_creation_registers_write(prog, chk, rid):
+    """a backlog is flushed by the write-ready arm of run(), which only sees clients registered for write events: where write() creates
+    the backlog (appends while the buffer was empty) it has to register the client before it returns - later write() calls only append
+    to the existing backlog and rely on that registration."""
+    chk.rule(rid, "MPT: in ClientImpl::write every path from an append to `_sendBuffer` evaluated under `_sendBuffer.isEmpty()` (the backlog "
+                  "is created) to a return passes `_p._sockets.set(*this, ...)` (whose flag value C13.d decides)", floor=1)
+    w = sfn(prog, P + "ClientImpl::write")
+    apps = [i for i, e in buffer_events(w, r"this->") if e in ("append", "assign", "prepend")]
+    sets = [c for c in q.calls(w) if (w.nodes[c].get("callee") or "").endswith("Poll::set") and "_sockets" in q.no_casts(w.r(c))]
+    n = 0
+    for a in apps:
+        atoms = fin.dominating_atoms(w, w.node_pos(a))
+        was_empty = any(x[0] != "case" and x[1] and fin.key(w, x[0]) == "this->_sendBuffer.isEmpty()" for x in atoms)
+        had_backlog = any(x[0] != "case" and not x[1] and fin.key(w, x[0]) == "this->_sendBuffer.isEmpty()" for x in atoms)
+        if had_backlog:
+            continue
+        n += 1
+        pth = w.find_path(w.node_pos(a), {w.exit_pos()}, avoid=q.pos_of(w, sets)) if w.node_pos(a) is not None else None
+        if pth is None and sets:
+            chk.ok(rid, w, "the append that creates the backlog is followed by the write registration on every path", w.where(a),
+                   "no path to the exit avoids _p._sockets.set", evals=len(sets) + 1)
+        else:
+            chk.bad(rid, w, "backlog-without-write-registration", w.where(a),
+                    "`%s` creates the backlog%s, but a path to the return does not register the client for write events: the write-ready arm of "
+                    "run() never sees it, the accepted bytes stay in the buffer and onWrite is never called (later writes only append)" % (
+                        q.no_casts(w.r(a))[:50], " (buffer known empty)" if was_empty else ""), evals=len(sets) + 1)
+    if n == 0:
+        raise AnalysisBroken("ClientImpl::write: no append that creates the backlog found")
